@@ -41,6 +41,15 @@ type SessionIn struct {
 	Idx  string  `json:"idx"`
 	Cfg  CfgIn   `json:"cfg"`
 	Reqs []ReqIn `json:"reqs"`
+	// kind "restart": the sessions played one after the other on the same stub (Cfg/Reqs unused)
+	Sessions []SessIn `json:"sessions"`
+}
+
+// SessIn is one session of a restart case.
+type SessIn struct {
+	Cfg  CfgIn   `json:"cfg"`
+	Reqs []ReqIn `json:"reqs"`
+	End  string  `json:"end"` // stop | close (the runtime end hangs up first)
 }
 
 type CfgIn struct {
@@ -108,6 +117,8 @@ type SessionObs struct {
 	Reqs      []ReqObs  `json:"reqs"`
 	Extra     []CallObs `json:"extra"` // invocations seen after the last reply (must be none)
 	Note      string    `json:"note"`
+	// kind "restart": one observation per session played
+	Sessions []SessionObs `json:"sessions"`
 }
 
 type workerJob struct {
@@ -450,62 +461,86 @@ func updObs(us []*api.ContainerUpdate) []string {
 
 const stepDeadline = 20 * time.Second
 
-// RunSession drives one real stub, built around an instance of the generated plugin type,
-// from a scripted runtime end over a real socket pair.
-func RunSession(mk func(*Rec) interface{}, in *SessionIn) (obs SessionObs) {
-	obs = SessionObs{Start: "none", CfgCalls: []CallObs{}, Reqs: []ReqObs{}, Extra: []CallObs{},
-		CfgErr: ErrObs{Extra: -1}}
-	defer func() {
-		if p := recover(); p != nil {
-			obs.Note = "crashed: " + strings.SplitN(fmt.Sprint(p), "\n", 2)[0]
-		}
-	}()
-	rec := &Rec{}
-	plugin := mk(rec)
+// rig is one real stub around an instance of a generated plugin type. Every Start dials a
+// fresh socket pair through stub.WithDialer, so the same stub can be started again after a
+// Stop or a lost connection.
+type rig struct {
+	rec    *Rec
+	st     stub.Stub
+	connC  chan stdnet.Conn // runtime ends of the pairs the stub dialled
+	closed chan struct{}    // onClose notifications
+}
 
-	sp, err := nrinet.NewSocketPair()
-	if err != nil {
-		obs.Note = "harness: " + err.Error()
-		return
-	}
-	lconn, err := sp.LocalConn()
-	if err != nil {
-		sp.Close()
-		obs.Note = "harness: " + err.Error()
-		return
-	}
-	pconn, err := sp.PeerConn()
-	if err != nil {
-		lconn.Close()
-		sp.Close()
-		obs.Note = "harness: " + err.Error()
-		return
-	}
-	defer lconn.Close()
-	defer pconn.Close()
-
-	closed := make(chan struct{}, 4)
+func newRig(mk func(*Rec) interface{}, name, idx string) (*rig, error) {
+	g := &rig{rec: &Rec{}, connC: make(chan stdnet.Conn, 4), closed: make(chan struct{}, 16)}
+	plugin := mk(g.rec)
 	st, err := stub.New(plugin,
-		stub.WithPluginName(in.Name), stub.WithPluginIdx(in.Idx),
-		stub.WithConnection(pconn),
+		stub.WithPluginName(name), stub.WithPluginIdx(idx),
+		stub.WithDialer(func(string) (stdnet.Conn, error) {
+			sp, err := nrinet.NewSocketPair()
+			if err != nil {
+				return nil, err
+			}
+			l, err := sp.LocalConn()
+			if err != nil {
+				sp.Close()
+				return nil, err
+			}
+			p, err := sp.PeerConn()
+			if err != nil {
+				l.Close()
+				sp.Close()
+				return nil, err
+			}
+			g.connC <- l
+			return p, nil
+		}),
 		stub.WithOnClose(func() {
 			select {
-			case closed <- struct{}{}:
+			case g.closed <- struct{}{}:
 			default:
 			}
 		}))
 	if err != nil {
-		obs.CreateMsg = err.Error()
-		if strings.Contains(err.Error(), "does not implement any NRI request handlers") {
-			obs.Create = "nohandlers"
-		} else {
-			obs.Create = "error"
+		return nil, err
+	}
+	g.st = st
+	return g, nil
+}
+
+func emptyObs() SessionObs {
+	return SessionObs{Start: "none", CfgCalls: []CallObs{}, Reqs: []ReqObs{}, Extra: []CallObs{}, CfgErr: ErrObs{Extra: -1}}
+}
+
+// play runs one session of the stub against a scripted runtime end, wired as pkg/adaptation
+// does it: Start, registration, Configure, the requests, then the session is ended by
+// Stop() ("stop") or by the runtime end hanging up ("close").
+func (g *rig) play(cfg *CfgIn, reqs []ReqIn, end string, obs *SessionObs) {
+	rec, st := g.rec, g.st
+	for len(g.closed) > 0 { // notifications of earlier sessions
+		<-g.closed
+	}
+	rec.set(script{events: api.EventMask(int32(cfg.Events)), err: func() error {
+		if cfg.Err != "" {
+			return fmt.Errorf("%s", cfg.Err)
 		}
+		return nil
+	}()})
+	startC := make(chan error, 1)
+	go func() { startC <- st.Start(context.Background()) }()
+	var lconn stdnet.Conn
+	select {
+	case lconn = <-g.connC:
+	case err := <-startC:
+		obs.Start = "error"
+		obs.Note = "harness: start returned before connecting: " + fmt.Sprint(err)
+		return
+	case <-time.After(stepDeadline):
+		obs.Start = "blocked"
+		obs.Note = "no connection"
 		return
 	}
-	obs.Create = "ok"
-
-	// runtime end, wired as pkg/adaptation does it
+	defer lconn.Close()
 	rt := &rtEnd{regC: make(chan [2]string, 1)}
 	mux := multiplex.Multiplex(lconn, multiplex.WithBlockedRead())
 	defer mux.Close()
@@ -532,16 +567,6 @@ func RunSession(mk func(*Rec) interface{}, in *SessionIn) (obs SessionObs) {
 	mux.Unblock()
 	client := api.NewPluginClient(rpcc)
 
-	rec.set(script{events: api.EventMask(int32(in.Cfg.Events)), err: func() error {
-		if in.Cfg.Err != "" {
-			return fmt.Errorf("%s", in.Cfg.Err)
-		}
-		return nil
-	}()})
-
-	startC := make(chan error, 1)
-	go func() { startC <- st.Start(context.Background()) }()
-
 	select {
 	case r := <-rt.regC:
 		obs.RegName, obs.RegIdx = r[0], r[1]
@@ -557,8 +582,8 @@ func RunSession(mk func(*Rec) interface{}, in *SessionIn) (obs SessionObs) {
 
 	ctx, cancel := context.WithTimeout(context.Background(), stepDeadline)
 	rpl, cerr := client.Configure(ctx, &api.ConfigureRequest{
-		Config: in.Cfg.Config, RuntimeName: in.Cfg.RName, RuntimeVersion: in.Cfg.RVer,
-		RegistrationTimeout: in.Cfg.RegTo, RequestTimeout: in.Cfg.ReqTo,
+		Config: cfg.Config, RuntimeName: cfg.RName, RuntimeVersion: cfg.RVer,
+		RegistrationTimeout: cfg.RegTo, RequestTimeout: cfg.ReqTo,
 	})
 	cancel()
 	obs.CfgErr = errObs(cerr)
@@ -579,11 +604,19 @@ func RunSession(mk func(*Rec) interface{}, in *SessionIn) (obs SessionObs) {
 	obs.RegToNs = int64(st.RegistrationTimeout())
 	obs.ReqToNs = int64(st.RequestTimeout())
 	if obs.Start != "ok" {
+		if obs.Start == "error" {
+			// the failed Start tears its connection down; let that settle before a next session
+			mux.Close()
+			select {
+			case <-g.closed:
+			case <-time.After(2 * time.Second):
+			}
+		}
 		return
 	}
 
-	for i := range in.Reqs {
-		rq := &in.Reqs[i]
+	for i := range reqs {
+		rq := &reqs[i]
 		rec.set(mkScript(rq.Adjust, rq.Updates, rq.Err))
 		ro := ReqObs{Updates: []string{}}
 		ctx, cancel := context.WithTimeout(context.Background(), stepDeadline)
@@ -647,12 +680,85 @@ func RunSession(mk func(*Rec) interface{}, in *SessionIn) (obs SessionObs) {
 	runtime.Gosched()
 	obs.Extra = rec.take()
 
+	if end == "close" {
+		// the runtime goes away; the stub notices, closes its side and tells the plugin
+		rpcc.Close()
+		mux.Close()
+		lconn.Close()
+		select {
+		case <-g.closed:
+		case <-time.After(stepDeadline):
+			obs.Note = "blocked: no onClose after the runtime hung up"
+		}
+	}
 	stopped := make(chan struct{})
 	go func() { st.Stop(); close(stopped) }()
 	select {
 	case <-stopped:
 	case <-time.After(stepDeadline):
 		obs.Note = "stop blocked"
+	}
+	if end != "close" {
+		// Stop closes the connection; its close notification belongs to this session
+		select {
+		case <-g.closed:
+		case <-time.After(2 * time.Second):
+		}
+	}
+}
+
+func createObs(err error, obs *SessionObs) {
+	obs.CreateMsg = err.Error()
+	if strings.Contains(err.Error(), "does not implement any NRI request handlers") {
+		obs.Create = "nohandlers"
+	} else {
+		obs.Create = "error"
+	}
+}
+
+// RunSession drives one real stub, built around an instance of the generated plugin type,
+// from a scripted runtime end over a real socket pair.
+func RunSession(mk func(*Rec) interface{}, in *SessionIn) (obs SessionObs) {
+	obs = emptyObs()
+	defer func() {
+		if p := recover(); p != nil {
+			obs.Note = "crashed: " + strings.SplitN(fmt.Sprint(p), "\n", 2)[0]
+		}
+	}()
+	g, err := newRig(mk, in.Name, in.Idx)
+	if err != nil {
+		createObs(err, &obs)
+		return
+	}
+	obs.Create = "ok"
+	g.play(&in.Cfg, in.Reqs, "stop", &obs)
+	return
+}
+
+// RunRestart reuses ONE stub for several sessions: Start, configuration, requests, Stop or
+// connection loss, Start again on a fresh connection.
+func RunRestart(mk func(*Rec) interface{}, in *SessionIn) (obs SessionObs) {
+	obs = emptyObs()
+	obs.Sessions = []SessionObs{}
+	defer func() {
+		if p := recover(); p != nil {
+			obs.Note = "crashed: " + strings.SplitN(fmt.Sprint(p), "\n", 2)[0]
+		}
+	}()
+	g, err := newRig(mk, in.Name, in.Idx)
+	if err != nil {
+		createObs(err, &obs)
+		return
+	}
+	obs.Create = "ok"
+	for i := range in.Sessions {
+		so := emptyObs()
+		so.Create = "ok"
+		g.play(&in.Sessions[i].Cfg, in.Sessions[i].Reqs, in.Sessions[i].End, &so)
+		obs.Sessions = append(obs.Sessions, so)
+		if so.Start == "blocked" || strings.HasPrefix(so.Note, "harness") || strings.Contains(so.Note, "blocked") {
+			break // a hung stub cannot be driven any further
+		}
 	}
 	return
 }
@@ -682,6 +788,8 @@ func WorkerMain(types map[uint32]func(*Rec) interface{}) {
 				mk, ok := types[j.In.Type]
 				if !ok {
 					obs = SessionObs{Note: fmt.Sprintf("harness: type %#x not generated", j.In.Type)}
+				} else if j.In.Kind == "restart" {
+					obs = RunRestart(mk, &j.In)
 				} else {
 					obs = RunSession(mk, &j.In)
 				}
